@@ -148,17 +148,17 @@ Hypothesis ceqb_spec : forall a b, ceqb a b = true <-> a = b.
 Definition fill_castable (fill : A) (castfill : list (res A)) : Prop :=
   forall j, nth j castfill (Ok fill) = Ok fill.
 
-Theorem unstack_refines : forall fill castfill (f : sframe A (G * T) C),
-  NoDup (sf_rows f) -> NoDup (sf_cols f) -> fill_castable fill castfill ->
-  M_unstack geqb teqb fill castfill f = Ok (S_unstack geqb teqb ceqb fill f).
+Theorem unstack_refines : forall cast_src fill castfill (f : sframe A (G * T) C),
+  NoDup (sf_rows f) -> NoDup (sf_cols f) -> (cast_src = true -> fill_castable fill castfill) ->
+  M_unstack geqb teqb cast_src fill castfill f = Ok (S_unstack geqb teqb ceqb fill f).
 Proof.
-  intros fill castfill [rows cols cells] NDr NDc HC. unfold M_unstack, S_unstack. cbn [sf_rows sf_cols sf_cells].
+  intros cast_src fill castfill [rows cols cells] NDr NDc HC. unfold M_unstack, S_unstack. cbn [sf_rows sf_cols sf_cells].
   set (targets := uniq teqb (map snd rows)). set (groups := uniq geqb (map fst rows)).
   set (V := fun (jct : (nat * C) * T) (h : option nat) =>
               match h with Some i => nth (fst (fst jct)) (nth i cells []) fill | None => fill end).
   rewrite (res_all_ok _ (fun jct => map (V jct) (map (lookup_last teqb (snd jct)) (map (fun g => row_map geqb rows g) groups)))).
-  2:{ intros jct _. cbn zeta. rewrite HC.
-      destruct (existsb _ _ && negb _); reflexivity. }
+  2:{ intros jct _. cbn zeta. destruct cast_src; cbn [andb]; [|reflexivity].
+      rewrite (HC eq_refl). destruct (existsb _ _ && negb _); reflexivity. }
   cbn [res_bind]. f_equal. f_equal.
   - rewrite (product_map_l snd (enumerate' cols) targets), map_snd_enumerate'. reflexivity.
   - unfold tab. apply map_seq_nth. intros i g Hg. cbn [plus]. rewrite map_map.
